@@ -297,6 +297,36 @@ theorem findMissing_nil_iff (required attributes : List Name) :
   rw [List.filter_eq_nil_iff]
   simp
 
+/-- Which requirements are missing depends only on WHICH names the receiver holds, not on how many
+attribute records it holds under a name (several values under one name, any order): two attribute lists
+with the same members leave the same requirements unsatisfied. -/
+theorem findMissing_depends_on_names_held_only (required as bs : List Name)
+    (h : ∀ a, a ∈ as ↔ a ∈ bs) :
+    findMissingAttributes required as = findMissingAttributes required bs := by
+  unfold findMissingAttributes
+  congr 1
+  funext req
+  congr 1
+  rw [Bool.eq_iff_iff, List.any_eq_true, List.any_eq_true]
+  constructor
+  · rintro ⟨a, ha, hm⟩; exact ⟨a, (h a).1 ha, hm⟩
+  · rintro ⟨a, ha, hm⟩; exact ⟨a, (h a).2 ha, hm⟩
+
+/-- Holding one name several times satisfies one requirement, not several: a further record under a
+name the receiver already holds changes nothing. -/
+theorem repeated_attribute_record_counts_once (required attrs : List Name) (a : Name) (ha : a ∈ attrs) :
+    findMissingAttributes required (a :: attrs) = findMissingAttributes required attrs :=
+  findMissing_depends_on_names_held_only required _ _ (fun b => by
+    constructor
+    · intro hb
+      rcases List.mem_cons.1 hb with rfl | hb
+      · exact ha
+      · exact hb
+    · exact fun hb => List.mem_cons_of_mem _ hb)
+
+example : findMissingAttributes ["kyc.pb".toList, "*.acme.pb".toList] ["kyc.pb".toList, "kyc.pb".toList]
+    = ["*.acme.pb".toList] := by decide
+
 /-! ### The everyday cases, spelled out -/
 
 /-- An ordinary send (no bypass, no transfer agents, neither end a marker account) of one coin of an
